@@ -146,6 +146,27 @@ Definition hb_clip_stmt : Prop :=
     (r_devinfo_changed r' = r_devinfo_changed r ||
        existsb (fun j => hb_changed iv off (get_devx r j)) (map (fun n => i + Z.of_nat n) (seq 0 k))).
 
+(* 5b. FALSE of the model and of the C++ (finding `reenable-stays-off`, see tools/p_C12.py): one would expect that a call with a
+   non-zero interval leaves the device's heartbeat running, in particular after it had been switched off with interval 0.  But
+   Disable() keeps period and offset, so a later call with the same values is "no change" and the scheduler stays disabled. *)
+Definition hb_reenable_stmt : Prop :=
+  forall r i iv off, 0 <= i < Z.of_nat (length (rx_dev r)) -> 0 <= r_sync r < TB -> 0 <= snd (millis64 r) < TB -> 0 <= off < 2^32 ->
+    0 <= ss_offset (x_hb (get_devx r i)) < 2^32 ->
+    hb_resolve_period iv (ss_period (x_hb (get_devx r i))) <> None ->
+    ss_next (x_hb (get_devx (set_heartbeat_all 1 r i iv off) i)) <> ss_disabled.
+(* the witness: a one-device node; heartbeat 60 s / 10 s; switched off; set to 60 s / 10 s again *)
+Definition hb_reenable_witness (cfg:rcfg) : rnode :=
+  let r0 := cold_node true 1 5000 40 5 no_lists [mk_dev true 22 1 []] [[]] cfg in
+  set_heartbeat_all 1 (set_heartbeat_all 1 r0 0 60000 10000) 0 0 0.
+Definition hb_reenable_refuted_stmt : Prop :=
+  forall cfg, let r := hb_reenable_witness cfg in
+    0 <= 0 < Z.of_nat (length (rx_dev r)) /\ 0 <= r_sync r < TB /\ 0 <= snd (millis64 r) < TB /\
+    0 <= ss_offset (x_hb (get_devx r 0)) < 2^32 /\
+    hb_resolve_period 60000 (ss_period (x_hb (get_devx r 0))) = Some 60000 /\
+    ss_next (x_hb (get_devx (set_heartbeat_all 1 r 0 60000 10000) 0)) = ss_disabled /\
+    (* whereas any other value restarts it *)
+    ss_next (x_hb (get_devx (set_heartbeat_all 1 r 0 60000 10001) 0)) = 10001.
+
 (* ---------- 6. no heartbeat from nodes that are not active bus devices ---------- *)
 Section Silent.
 Variable gf : rnode -> slot -> rnode * list event.
